@@ -825,6 +825,9 @@ fn c06(sim: &mut Sim, d: &Delivery) -> u64 {
                         sim.find("C06-stale-or-foreign-template-used", d.ev, msg);
                     } else {
                         sim.stats.probe("decode_mismatch_not_attributable_to_cache");
+                        if std::env::var("NFSIM_DEBUG_C06").is_ok() {
+                            sim.find("DBG-decode-mismatch", d.ev, f.message.clone());
+                        }
                     }
                 }
             }
